@@ -285,6 +285,10 @@ class SymArray:
     def swapaxes(self, a, b):
         return SymArray(self.base, self.idx.swapaxes(a, b), self.dtype)
 
+    def setflags(self, write=None, **kw):
+        if write is not None:
+            self.flags.writeable = builtins.bool(write)
+
     def fill(self, v):
         v = _cast_elem(v, self.dtype)
         for i in self.idx.ravel().tolist():
@@ -691,6 +695,8 @@ def _ghost_of(x):
 
 
 def _ghost_nested(x):
+    if isinstance(x, range):
+        return list(x)
     if isinstance(x, (list, tuple)):
         return [_ghost_nested(e) for e in x]
     if isinstance(x, SymArray):
@@ -703,7 +709,7 @@ def _ghost_nested(x):
 
 
 def _flatten_nested(x, out):
-    if isinstance(x, (list, tuple)):
+    if isinstance(x, (list, tuple, range)):
         for e in x:
             _flatten_nested(e, out)
     elif isinstance(x, SymArray):
@@ -1406,6 +1412,27 @@ def meshgrid(*xs, **kw):
     if builtins.all(not isinstance(x, SymArray) or x.is_concrete() for x in xs):
         return [asarray(m) for m in _np.meshgrid(*[_np.asarray(x) for x in xs], **kw)]
     raise Unsupported("meshgrid of symbolic arrays")
+
+
+def intersect1d(a, b, **kw):
+    """Sorted unique common values.  A symbolic ``a`` against a concrete ``b`` forks on membership of
+    every element (finitely many overlap configurations); common values are taken from ``b``."""
+    a, b = asarray(a), asarray(b)
+    if a.is_concrete() and b.is_concrete():
+        return asarray(_np.intersect1d(a.to_numpy(), b.to_numpy()))
+    if not b.is_concrete():
+        a, b = b, a
+    if not b.is_concrete():
+        raise Unsupported("intersect1d of two symbolic arrays")
+    bv = b.elems()
+    common = set()
+    for e in a.elems():
+        for v in bv:
+            if builtins.bool(e == v):
+                common.add(v)
+                break
+    r = _np.array(sorted(common), dtype=_np.result_type(a.dtype, b.dtype))
+    return asarray(r)
 
 
 def may_share_memory(a, b):
